@@ -16,7 +16,9 @@ from gv.astutil import unparse
 from gv.astutil import walk_body
 from gv.cfg import cfg_of
 from gv.props import describe
+from gv.props.shared import accumulated_lists
 from gv.props.shared import branch_conditions
+from gv.props.shared import unfolded
 from gv.report import Ctx
 from gv.report import cname
 
@@ -49,14 +51,17 @@ def check_orientation(ctx: Ctx) -> None:
     loops = [s for s in stmts_of(f) if isinstance(s, ast.For) and isinstance(s.target, ast.Tuple) and len(s.target.elts) == 2 and isinstance(s.target.elts[1], ast.Tuple)]
     ctx.need(len(loops) == 2, "__create_graph: the two loops over (discipline, (inputs, outputs)) were not found")
     # nodes_to_ios[disc] = (inputs, outputs): find the order of the tuple
-    st = [s for s in stmts_of(f) if isinstance(s, ast.Assign) and isinstance(s.targets[0], ast.Subscript) and isinstance(s.value, ast.Tuple) and len(s.value.elts) == 2]
-    ctx.need(len(st) == 1, "__create_graph: nodes_to_ios[disc] = (inputs, outputs) not found")
-    order = ["in" if "input_grammar" in unparse(e) else ("out" if "output_grammar" in unparse(e) else "?") for e in st[0].value.elts]
+    # (the map is built by a loop `nodes_to_ios[disc] = (...)` or by a dict comprehension `{disc: (...) for disc in ...}`)
+    pairs = [(s.value, next((dotted(s_.target) for s_ in stmts_of(f) if isinstance(s_, ast.For) and s in list(ast.walk(s_))), None), s) for s in stmts_of(f) if isinstance(s, ast.Assign) and isinstance(s.targets[0], ast.Subscript) and isinstance(s.value, ast.Tuple) and len(s.value.elts) == 2]
+    pairs += [(s.value.value, dotted(s.value.generators[0].target), s) for s in stmts_of(f) if isinstance(s, ast.Assign) and isinstance(s.value, ast.DictComp) and isinstance(s.value.value, ast.Tuple) and len(s.value.value.elts) == 2 and len(s.value.generators) == 1]
+    ctx.need(len(pairs) == 1, "__create_graph: nodes_to_ios[disc] = (inputs, outputs) not found")
+    tup, dv, st0 = pairs[0]
+    dv = dv or "disc"
+    st = [st0]
+    order = ["in" if "input_grammar" in unparse(e) else ("out" if "output_grammar" in unparse(e) else "?") for e in tup.elts]
     ctx.need(sorted(order) == ["in", "out"], "__create_graph: the (inputs, outputs) tuple is not built from the grammars")
     # all the names of each grammar take part: an optional input with a default is a dependency as well
-    loop_disc = [s_ for s_ in stmts_of(f) if isinstance(s_, ast.For) and st[0] in list(ast.walk(s_))]
-    dv = dotted(loop_disc[0].target) if loop_disc else "disc"
-    for e, side in zip(st[0].value.elts, order):
+    for e, side in zip(tup.elts, order):
         g = f"{dv}.io.{'input' if side == 'in' else 'output'}_grammar"
         accepted = {f"set({g})", f"set({g}.names)", f"set({g}.keys())", f"{g}.names", f"{g}.keys()", f"frozenset({g})", f"set({g}.names_without_namespace)"}
         ctx.ob("8.1-edge", con1, norm_stmt(e) in accepted, f"the {side}put side of the dependency graph must be every name of the {side}put grammar; `{norm_stmt(e)}` leaves names out (e.g. optional inputs), so a consumer can be scheduled before or beside its producer", node=e, stmt=f"all {side}put names of the grammar")
@@ -82,6 +87,11 @@ def check_orientation(ctx: Ctx) -> None:
     s1 = 1 if (src, dst) == (producer, consumer) else (-1 if (src, dst) == (consumer, producer) else 0)
     ctx.ob("8.1-edge", con1, s1 != 0, "the edge must join the producing and the consuming discipline of the shared variables", node=edges[0], stmt="edge joins producer and consumer")
     io_kw = [k for k in edges[0].keywords if k.arg == "io"]
+    if not io_kw:
+        # **{DependencyGraph.IO: names} / **{"io": names}
+        for k in edges[0].keywords:
+            if k.arg is None and isinstance(k.value, ast.Dict) and len(k.value.keys) == 1 and (const_value(k.value.keys[0]) == "io" or (dotted(k.value.keys[0]) or "").endswith(".IO")):
+                io_kw = [ast.keyword(arg="io", value=k.value.values[0])]
     ctx.ob("8.1-edge", con1, len(io_kw) == 1 and dotted(io_kw[0].value) == dotted(inter[0].targets[0]), "the edge must carry the shared variable names", node=edges[0], stmt="edge labelled with the shared names")
     cfg = cfg_of(f)
     conds = branch_conditions(cfg, cfg.node_of(edges[0]))
@@ -96,6 +106,20 @@ def check_orientation(ctx: Ctx) -> None:
     s2 = -1 if last_attr(degs[0]) == "out_degree" else 1  # out_degree == 0: consumers of nobody = last to run
     cmps = [c for c in walk_body(g) if isinstance(c, ast.Compare) and degs[0] in list(ast.walk(c))]
     ok = len(cmps) == 1 and isinstance(cmps[0].ops[0], ast.Eq) and const_value(cmps[0].comparators[0], 1) == 0
+    if not ok:
+        # the same selection spelled `not graph.out_degree(n)`, or over the degree view: `for n, d in graph.out_degree() if d == 0`
+        comps = [c for c in walk_body(g) if isinstance(c, (ast.ListComp, ast.GeneratorExp, ast.SetComp))]
+        for c in comps:
+            gen = c.generators[0]
+            if len(gen.ifs) != 1:
+                continue
+            cond = gen.ifs[0]
+            if isinstance(cond, ast.UnaryOp) and isinstance(cond.op, ast.Not) and cond.operand is degs[0] and degs[0].args:
+                ok = True
+            if gen.iter is degs[0] and not degs[0].args and isinstance(gen.target, ast.Tuple) and len(gen.target.elts) == 2:
+                dvar = dotted(gen.target.elts[1])
+                zero = (isinstance(cond, ast.Compare) and dotted(cond.left) == dvar and isinstance(cond.ops[0], ast.Eq) and const_value(cond.comparators[0], 1) == 0) or (isinstance(cond, ast.UnaryOp) and isinstance(cond.op, ast.Not) and dotted(cond.operand) == dvar)
+                ok = zero and dotted(c.elt) == dotted(gen.target.elts[0])
     ctx.ob("8.1-peel", con2, ok, "peeled nodes are those of degree 0", node=(cmps or degs)[0])
     # site 3: final reversal
     h = ctx.index.method(DG, "DependencyGraph", "get_execution_sequence")
@@ -147,13 +171,25 @@ def check_orientation(ctx: Ctx) -> None:
     if ok:
         inner = [s for s in ast.walk(lp[0]) if isinstance(s, ast.For) and dotted(s.iter) == dotted(lp[0].target)]
         ok = len(inner) == 1 and not any(isinstance(x, (ast.If, ast.Continue, ast.Break)) for x in ast.walk(inner[0]))
+    if not ok and len(ys) == 1 and len(lp) == 1:
+        # `yield sorted(component, key=...)`: a permutation of the component by construction
+        v_ = ys[0].value
+        if isinstance(v_, ast.Call) and dotted(v_.func) in ("list", "tuple") and len(v_.args) == 1:
+            v_ = v_.args[0]
+        ok = isinstance(v_, ast.Call) and dotted(v_.func) == "sorted" and v_.args and dotted(v_.args[0]) == dotted(lp[0].target) and any(sub is ys[0] for sub in ast.walk(lp[0]))
     ctx.ob("8.2-scc", cname(DG, "DependencyGraph", "__get_ordered_scc"), ok, "__get_ordered_scc may only reorder the members of each component (one yield per component, every member kept)", node=(ys or [o])[0])
     # the sequence used everywhere is this one
     init = ctx.index.method(CS, "CouplingStructure", "__init__")
     seq = rules.assigns_to_self(init, "sequence")
-    ok = len(seq) == 1 and norm_stmt(seq[0].value) == "self.graph.get_execution_sequence()"
+    # `self.sequence = <graph>.get_execution_sequence()` where <graph> is what self.graph holds: DependencyGraph(disciplines)
     gr = rules.assigns_to_self(init, "graph")
-    ok = ok and len(gr) == 1 and isinstance(gr[0].value, ast.Call) and dotted(gr[0].value.func) == "DependencyGraph" and dotted(gr[0].value.args[0]) == "disciplines"
+    ok = len(seq) == 1 and len(gr) == 1 and isinstance(seq[0].value, ast.Call) and last_attr(seq[0].value) == "get_execution_sequence"
+    if ok:
+        recv = seq[0].value.func.value
+        g_alts = unfolded(init, gr[0], get=lambda st: st.value) or [gr[0].value]
+        r_alts = [gr[0].value] if dotted(recv) == "self.graph" else (unfolded(init, recv) or [recv])
+        is_graph = lambda a_: isinstance(a_, ast.Call) and dotted(a_.func) == "DependencyGraph" and a_.args and dotted(a_.args[0]) == "disciplines"  # noqa: E731
+        ok = all(is_graph(a_) for a_ in g_alts) and (dotted(recv) == "self.graph" or (all(is_graph(a_) for a_ in r_alts) and dotted(recv) == dotted(gr[0].value)))
     ctx.ob("8.2-scc", cname(CS, "CouplingStructure", "__init__"), ok, "the coupling structure's sequence must be the execution sequence of the dependency graph of its own disciplines", node=(seq or [init])[0])
 
 
@@ -173,15 +209,15 @@ def check_chains(ctx: Ctx) -> None:
         ctx.ob("8.4-chain", con, bool(ok), "the outputs of each discipline must be merged into the chain's data before the next one runs", node=(up or loops)[0])
     g = ctx.index.method(MC, "MDAChain", "_create_mdo_chain")
     con2 = cname(MC, "MDAChain", "_create_mdo_chain")
-    loops = [s for s in stmts_of(g) if isinstance(s, ast.For)]
-    ok = len(loops) == 1 and norm_stmt(loops[0].iter) == "self.coupling_structure.sequence"
-    ctx.ob("8.4-mda-chain", con2, ok, "the MDA chain must follow the execution sequence, stage by stage, in order", node=(loops or [g])[0])
+    accs = [a for a in accumulated_lists(g) if norm_stmt(a["iter"]) == "self.coupling_structure.sequence"]
+    ok = len(accs) == 1
+    ctx.ob("8.4-mda-chain", con2, ok, "the MDA chain must follow the execution sequence, stage by stage, in order", node=(accs[0]["node"] if accs else g), stmt="one pass over self.coupling_structure.sequence")
     if ok:
-        ap = [c for c in ast.walk(loops[0]) if isinstance(c, ast.Call) and last_attr(c) == "append"]
-        pr = [s for s in ast.walk(loops[0]) if isinstance(s, ast.Assign) and isinstance(s.value, ast.Call) and last_attr(s.value).endswith("__create_process_from_disciplines")]
-        ok = len(ap) == 1 and len(pr) == 1 and dotted(pr[0].value.args[0]) == dotted(loops[0].target) and dotted(ap[0].args[0]) == dotted(pr[0].targets[0])
-        ctx.ob("8.4-mda-chain", con2, ok, "one process per stage, appended in stage order", node=(ap or loops)[0])
-        lst = dotted(ap[0].func.value) if ap else None
+        acc = accs[0]
+        tv = dotted(acc["target"])
+        ok = not acc["conditional"] and all(isinstance(e_, ast.Call) and (last_attr(e_) or "").endswith("__create_process_from_disciplines") and e_.args and dotted(e_.args[0]) == tv for e_ in acc["elements"])
+        ctx.ob("8.4-mda-chain", con2, ok, "one process per stage, appended in stage order", node=acc["node"], stmt="one process per stage, in stage order")
+        lst = acc["name"]
         rets = [s for s in stmts_of(g) if isinstance(s, ast.Return)]
         ok = len(rets) == 1 and isinstance(rets[0].value, ast.Call) and dotted(rets[0].value.func) == "MDOChain" and dotted(rets[0].value.args[0]) == lst
         ctx.ob("8.4-mda-chain", con2, ok, "the stages must be chained sequentially (MDOChain) in that order", node=(rets or [g])[0])
@@ -233,7 +269,32 @@ def check_needs_mda(ctx: Ctx) -> None:
     f = ctx.index.method(MC, "MDAChain", "__requires_mda")
     rets = [s for s in stmts_of(f) if isinstance(s, ast.Return)]
     ok, txt = _needs_mda_shape(rets[0].value, f.args.args[1].arg, True) if len(rets) == 1 else (False, "")
-    ctx.ob("8.5-needs-mda", cname(MC, "MDAChain", "__requires_mda"), ok, "a group needs an MDA iff it has more than one discipline or its single discipline is self-coupled (and is not already an MDA)", node=(rets or [f])[0])
+    # the predicate only compares len(group) with constants and combines two boolean facts: it is decided over all their
+    # orderings / truth values, whatever its spelling
+    from gv.ordering import Unsupported
+    from gv.ordering import same_predicate
+
+    grp = f.args.args[1].arg
+    iso = [c for c in walk_body(f) if isinstance(c, ast.Call) and dotted(c.func) == "isinstance"]
+    scs = [c for c in walk_body(f) if isinstance(c, ast.Call) and last_attr(c) == "is_self_coupled"]
+    if len(iso) == 1 and len(scs) == 1:
+        import copy as _copy
+
+        atoms = {f"len({grp})": "n"}
+        # the two boolean facts, with the group's single member spelled `group[0]`
+        g2 = _copy.deepcopy(f)
+        try:
+            ok, cex = same_predicate(
+                g2,
+                {f"len({grp})": "n", f"self.coupling_structure.is_self_coupled({grp}[0])": "sc", norm_stmt(iso[0]).replace(norm_stmt(iso[0].args[0]), f"{grp}[0]"): "mda"},
+                lambda n, sc, mda: n > 1 or (n == 1 and sc != 0 and mda == 0),
+                constants=(0, 1),
+                where=lambda n, sc, mda: sc in (0, 1) and mda in (0, 1) and n >= 0,
+            )
+            txt = f"counter-example: {cex}" if cex else txt
+        except Unsupported:
+            pass  # keep the verdict of the syntactic rule
+    ctx.ob("8.5-needs-mda", cname(MC, "MDAChain", "__requires_mda"), ok, "a group needs an MDA iff it has more than one discipline or its single discipline is self-coupled (and is not already an MDA)" + (f" ({txt})" if not ok else ""), node=(rets or [f])[0], stmt="needs an MDA iff several disciplines, or one self-coupled that is not an MDA")
     # the only single self-coupled disciplines that need no inner MDA are those that solve their own coupling: MDAs
     mod = ctx.index.module(MC)
     base_mda = ctx.index.resolve_qualified("gemseo.mda.base_mda.BaseMDA")
